@@ -13,4 +13,12 @@ TTLBoth == {1, 3600}
 TTLShort == {1}
 NoDelay == {0}
 Delays == {0, 600}
+\* the long-lease family: referral TTLs of 6 h (below the ceiling), 1 d and 2 d (above it), answers of 1 h / 1 d,
+\* clock advances of 6 h + 100 s and 12 h + 100 s (no sum of them comes within 100 s of any lease end)
+NoJumps == {}
+TLong == {21600, 86400, 172800}
+TLongTop == {86400, 172800}
+JLong == {21700, 43300}
+TTLDay == {3600, 86400}
+TTLDayOnly == {86400}
 =============================================================================
